@@ -19,6 +19,7 @@ use compio_quic::{
 pub const SMALL_WINDOW: u64 = 2048;
 
 /// One self-signed certificate per process.
+#[derive(Clone)]
 pub struct Certs {
     cert: Vec<u8>,
     key: Vec<u8>,
